@@ -337,6 +337,35 @@ def w_repair_orders(task):
     return acc
 
 
+def w_switch_orders(task):
+    """one received block decoded several times in a row with the repair switch in different positions (what a receiver does: a
+    burst parser decodes without repair, the transmission tracker decodes the same bits again with repair)"""
+    msg, lo, hi = task
+    acc = Acc()
+    cw = bitarray(ref_encode(msg))
+    for idx in range(lo, hi):
+        pat = PATTERNS[idx]
+        case = {"message": msg, "flipped": list(pat)}
+        try:
+            x = cw.copy()
+            for p_ in pat:
+                x.invert(p_)
+            raw = "".join("1" if x[t] else "0" for t in INFO_TX)  # the info cells as received
+            seq = []
+            for sw in (False, True, False, True):
+                seq.append((sw, BPTC19696.deinterleave_data_bits(x.copy(), sw).to01()))
+            for pos, (sw, got) in enumerate(seq):
+                want_ = msg if sw else raw
+                if got != want_:
+                    acc.violation(f"decode_number_{pos + 1}_of_the_same_block_with_repair_{'on' if sw else 'off'}_is_wrong", {**case, "switch_sequence": [q for q, _ in seq]},
+                                  "the same received bits decoded again with the repair switch in the other position: the result belongs to the earlier call")
+                    break
+        except Exception as e:  # noqa: BLE001
+            acc.violation("exception_switch_orders:" + exc_sig(e), case, repr(e))
+        acc.case(nontrivial=True, calls=4, outcome=pattern_class(pat), sample=case if idx == lo + 1 else None)
+    return acc
+
+
 def w_history(task):
     pol, v, pm, probes = task
     acc = Acc()
@@ -554,6 +583,17 @@ def run(only=None):
         tasks = [(w_, lo, hi) for w_ in words for lo, hi in par.chunks(len(PATTERNS), nw * 2)]
         s.declared = len(words) * len(PATTERNS)
         for acc in par.pmap(w_repair_orders, tasks, nw):
+            s.merge(acc)
+        s.done()
+
+    if want("same_block_decoded_with_the_repair_switch_off_and_on"):
+        s = rep.sub("same_block_decoded_with_the_repair_switch_off_and_on",
+                    "all 19307 patterns of weight <= 2 x base words: the same received 196 bits (fresh copies) decoded four times in a row with the "
+                    "repair switch off, on, off, on: with repair the original message every time, without repair the info cells as received every time")
+        words = [env.det_bits("c02-switch-order", K)] + (["1" * K, spaces.unit(K, 7)] if rep.thorough() else [])
+        tasks = [(w_, lo, hi) for w_ in words for lo, hi in par.chunks(len(PATTERNS), nw * 2)]
+        s.declared = len(words) * len(PATTERNS)
+        for acc in par.pmap(w_switch_orders, tasks, nw):
             s.merge(acc)
         s.done()
 
